@@ -88,8 +88,9 @@ func (lib *KnowledgeLibrary) LoadKnowledgeBaseFromReader(reader io.Reader, overw
 
 	catalog := &Catalog{}
 	err := catalog.ReadCatalogFromReader(reader)
-	if err != nil && err != io.EOF {
-
+	if err != nil {
+		// every count and length of the format is explicit, so a complete stream never ends
+		// in io.EOF: EOF here means the stream was cut at a field boundary.
 		return nil, err
 	}
 	knowledgeBase, err := catalog.BuildKnowledgeBase()
